@@ -334,13 +334,18 @@ def mpf_pow(s, t, prec, rnd=round_fast):
                     reciprocal_rnd[rnd]), prec, rnd)
             return mpf_sqrt(s, prec, rnd)
         else:
+            # the error of the square root is amplified by the exponent
+            wp = prec + 10 + tbc
             if tsign:
-                return mpf_pow_int(mpf_sqrt(s, prec+10,
+                return mpf_pow_int(mpf_sqrt(s, wp,
                     reciprocal_rnd[rnd]), -tman, prec, rnd)
-            return mpf_pow_int(mpf_sqrt(s, prec+10, rnd), tman, prec, rnd)
+            return mpf_pow_int(mpf_sqrt(s, wp, rnd), tman, prec, rnd)
     # General formula: s**t = exp(t*log(s))
     # TODO: handle rnd direction of the logarithm carefully
-    c = mpf_log(s, prec+10, rnd)
+    # The relative error of exp(t*log(s)) is about |t*log(s)| times the
+    # relative error of log(s)
+    wp = prec + 10 + max(0, texp + tbc + bitcount(abs(sexp + sbc)))
+    c = mpf_log(s, wp, rnd)
     return mpf_exp(mpf_mul(t, c), prec, rnd)
 
 def int_pow_fixed(y, n, prec):
@@ -461,7 +466,8 @@ def mpf_nthroot(s, n, prec, rnd=round_fast):
         prec += extra_inverse
         n = -n
     if n > 20 and (n >= 20000 or prec < int(233 + 28.3 * n**0.62)):
-        prec2 = prec + 10
+        # the error of 1/n is amplified by |log(s)|
+        prec2 = prec + 10 + bitcount(abs(exp + bc))
         fn = from_int(n)
         nth = mpf_rdiv_int(1, fn, prec2)
         r = mpf_pow(s, nth, prec2, rnd)
